@@ -56,8 +56,7 @@ Variable keqb : K -> K -> bool.
 Variable H : K -> N.
 Variable kdef : K.
 Variable vdef : V.
-Hypothesis keqb_spec : forall a b, keqb a b = true <-> a = b.
-Hypothesis H_nz : forall k, H k <> 0%N.
+Local Set Default Proof Using "All".
 
 Notation ht := (ht K V).
 Notation item := (item K V).
@@ -186,6 +185,9 @@ Proof.
 Qed.
 
 (* ---------- find under the invariant ---------- *)
+Hypothesis keqb_spec : forall a b, keqb a b = true <-> a = b.
+Hypothesis H_nz : forall k, H k <> 0%N.
+
 Lemma matches_iff s k i :
   live_at s i -> ihash (it s i) = H (ikey (it s i)) ->
   (matches keqb kdef vdef s k (H k) i <-> ikey (it s i) = k).
